@@ -32,7 +32,7 @@ CLAIM = dict(
          "from the wrong logical position (necessary conditions). The rest of the gz data path is not decided.",
     note="Trusted: rustc MIR; the effect vocabulary (helper calls and cursor fields) and the exception list in rules/props/c17.py; "
          "K1 and K2 builds (gz feature).",
-    technique="sibling admission-test agreement, cut-set (pending seek / refill before verdict) and cursor-coupling analysis over rustc MIR",
+    technique="sibling admission-test agreement, cut-set (pending seek / refill before verdict), dominance guards (eof on zero read, start offset) and cursor-coupling analysis over rustc MIR",
 )
 
 G = SYS + "gz::"
